@@ -731,6 +731,25 @@ fn run_op(cmd: &Value) -> Value {
                 Err(es) => json!({"err": errors_json(&es), "text": text}),
             }
         }
+        "front_timed" => {
+            // wall-clock time of `reps` runs of tokenize + parse on one text (C17's native confirmation)
+            let src: &'static str = leak(cmd["source"].as_str().unwrap());
+            let reps = cmd["reps"].as_u64().unwrap_or(1);
+            let budget_ms = cmd["budget_ms"].as_u64().unwrap_or(30000) as u128;
+            let t0 = std::time::Instant::now();
+            let mut done = 0u64;
+            for _ in 0..reps {
+                if let Ok(ts) = tokenizer::tokenize(None, src) {
+                    let toks: &'static [token::Token<'static>] = Box::leak(ts.into_boxed_slice());
+                    let _ = parser::parse(None, src, toks, &[]);
+                }
+                done += 1;
+                if t0.elapsed().as_millis() > budget_ms {
+                    break;
+                }
+            }
+            json!({"nanos": t0.elapsed().as_nanos() as u64, "reps": done})
+        }
         "front" | "pipeline" => {
             let src: &'static str = leak(cmd["source"].as_str().unwrap());
             let toks = match tokenizer::tokenize(None, src) {
